@@ -999,12 +999,12 @@ func seqHistory(h histSpec) {
 	ref := newReference(h.Kind, u)
 	id := run.NewID()
 	var toks, outs, shown []string
-	failed := false
+	reported := map[string]bool{}
 	report := func(f *failure, step int) {
-		if failed {
-			return
+		if reported[f.sig] || len(reported) >= 4 {
+			return // each clause once per history
 		}
-		failed = true
+		reported[f.sig] = true
 		run.OracleFail(id, f.sig, fmt.Sprintf("store=%s step=%d: %s", h.Kind, step, f.msg),
 			map[string]any{"store": h.Kind, "mode": "seq", "hseed": h.HSeed, "nops": h.NOps, "step": step, "history": shown})
 	}
